@@ -706,6 +706,15 @@ def fixed_scenes():
     out.append((bx([0, 0, 0], [2, 2, 2]), sp([0.25, 0.125, 0], 0.25), {"mode": "F:sphere-in-box"}))
     out.append((bx([0, 0, 0], [0.01, 100, 100]), bx([5, 3, 1], [100, 0.01, 0.01]), {"mode": "F:flat-needle"}))
     out.append((bx([500, 0, 0], [1, 1, 1]), bx([-500, 0, 0], [1, 1, 1]), {"mode": "F:boxes-clipped", "gt": 999.0}))
+    # regression (repaired by ea3a5ff): flat shapes in perpendicular planes; GJK re-adds a support point that equals a
+    # simplex point up to the last bits; before the repair the sliver triangle went through the face branch and the
+    # query answered 0.0 for shapes 2.0 apart
+    ell = {"type": "ellipse", "R": [[0.8, 0.0, 0.6], [0.0, -1.0, 0.0], [0.6, 0.0, -0.8]], "t": [1.0, -1.0, 0.5],
+           "radii": [4.0, 4.0]}
+    dsk = {"type": "disk", "R": [[0.0, 1.0, 0.0], [0.0, 0.0, 1.0], [1.0, 0.0, 0.0]], "t": [1.6000000000000005, -1.0, 4.7],
+           "radius": 1.0}
+    out.append((ell, dsk, {"mode": "F:flat-perpendicular-regression", "gt": 2.0}))
+    out.append((dsk, ell, {"mode": "F:flat-perpendicular-regression", "gt": 2.0}))
     return out
 
 
@@ -1373,6 +1382,13 @@ def gen_scenes(ctx, n_general, n_lattice):
     for _ in range(n_general):
         a, b, i = gen_pair_general(ctx.rng)
         sc.append((a, b, i, "G"))
+    # two FLAT shapes (disk, ellipse, planar mesh) on lattice placements: parallel, perpendicular, coplanar, crossing
+    flat_types = [t for t in TYPES if t in ("disk", "ellipse")]
+    for k in range(max(20, n_lattice // 8)):
+        a = gen_shape(ctx.rng, ctx.rng.choice(flat_types), lattice=True, center=lat_center(ctx.rng))
+        b = gen_shape(ctx.rng, ctx.rng.choice(flat_types), lattice=True,
+                      center=lat_center(ctx.rng) + np.array([0.0, 0.0, ctx.rng.choice([0.0, 0.2, 4.2, 6.0])]))
+        sc.append((a, b, {"mode": "flat-pair"}, "L"))
     # curved shape next to an EDGE of a polytope (closest feature = edge: nearly collinear final triple), both orders
     polys = [t for t in TYPES if t in ("box", "mesh", "hull")] or TYPES
     curved = [t for t in TYPES if t in ("sphere", "capsule", "ellipsoid", "cylinder")] or TYPES
